@@ -9,7 +9,10 @@ use humphrey::http::proxy::proxy_request;
 use humphrey::http::{Request, Response, StatusCode};
 
 use std::net::ToSocketAddrs;
+#[cfg(not(humphrey_verif))]
 use std::sync::{Arc, Mutex, MutexGuard, PoisonError};
+#[cfg(humphrey_verif)]
+use {humphrey::verif::sync::{Arc, Mutex, MutexGuard}, std::sync::PoisonError};
 use std::time::Duration;
 
 /// Represents a load balancer.
